@@ -70,7 +70,11 @@ func init() {
 			"monitors: result is a permutation, consecutive results never decrease under the specification (arrays by min ascending / max descending, missing as null), ties keep insertion order; non-trivial = sorted order differs from the input order",
 		Gen: func(r *gen.R, idx int) []run.Case {
 			malformed := r.P(15)
-			list := docList(r, r.N(13))
+			n := r.N(13)
+			if r.P(35) {
+				n = 13 + r.N(40) // Go's sort.Slice is an insertion sort (stable) up to 12 elements
+			}
+			list := docList(r, n)
 			spec := sortSpec(r, malformed)
 			req := `{"op":"sort","docs":` + vj.EncDocs(list) + `,"spec":` + vj.Enc(spec) + `}`
 			var sorted bsonkit.List
